@@ -25,7 +25,9 @@ def impl_case(args):
     for cx, events in runs:
         fn = impl.run_sync if engine == "sync" else impl.run_async
         try:
-            out.append(fn(am, events, cfg_opts=opts, seed_ctx=ctx_seed(cx)))
+            o = dict(opts or {})
+            probe = bool(o.pop("probe_can", False))
+            out.append(fn(am, events, cfg_opts=o, seed_ctx=ctx_seed(cx), probe_can=probe))
         except BaseException as exc:  # harness-level failure: make it visible as a disagreement
             out.append([[impl.TS("harness-error"), impl.TS(type(exc).__name__ + ":" + str(exc)[:80])]])
     return out
@@ -39,14 +41,14 @@ def run_impl(cases, workers=14):
         return list(ex.map(impl_case, cases, chunksize=max(1, len(cases) // (workers * 4))))
 
 
-def case_coq(i, am: AM, engine, runs, results):
+def case_coq(i, am: AM, engine, runs, results, probe=False):
     rows = []
     for (cx, events), snaps in zip(runs, results):
         rows.append("(%s, %s, %s)" % (ctx_coq(cx), core.cl(ev_coq(e) for e in events),
                                       core.cl(impl.toks_coq(s) for s in snaps)))
     return ("Definition m%d : machine := %s.\n"
-            "Definition r%d := check_macro %s m%d %s.\n" % (i, am.to_coq(), i, "Sync" if engine == "sync" else "Async", i,
-                                                            core.cl(rows)))
+            "Definition r%d := check_macro %s %s m%d %s.\n" % (i, am.to_coq(), i, "Sync" if engine == "sync" else "Async",
+                                                               "true" if probe else "false", i, core.cl(rows)))
 
 
 def check(cases, name, shard=25, par=14, workers=14, max_tokens=8000):
@@ -61,7 +63,7 @@ def check(cases, name, shard=25, par=14, workers=14, max_tokens=8000):
     jobs = []
     for j in range(0, len(cases), shard):
         chunk = list(range(j, min(j + shard, len(cases))))
-        text = HEADER + "".join(case_coq(i, cases[i][0], cases[i][1], cases[i][2], results[i]) for i in chunk)
+        text = HEADER + "".join(case_coq(i, cases[i][0], cases[i][1], cases[i][2], results[i], bool((cases[i][3] or {}).get("probe_can"))) for i in chunk)
         text += "Eval vm_compute in %s.\n" % core.cl("(%d, r%d)" % (i, i) for i in chunk)
         jobs.append(("%s_%04d" % (name, j // shard), text))
     outs = core.coq_eval_many(jobs, par=par)
@@ -84,16 +86,16 @@ def check(cases, name, shard=25, par=14, workers=14, max_tokens=8000):
             runs_total += len(cases[i][2])
             for b in bad:
                 am, engine, runs, opts = cases[i]
-                disagreements.append(dict(component="K-macro-" + engine[0], case=dict(config=am.to_config(**(opts or {})), engine=engine,
+                disagreements.append(dict(component="K-macro-" + engine[0], case=dict(config=am.to_config(**{k: v for k, v in (opts or {}).items() if k != 'probe_can'}), engine=engine,
                                           ctx=runs[b][0], events=runs[b][1], case_index=i, run_index=b),
                                           impl=results[i][b], model="differs (rerun with --replay for the model's trace)",
                                           am=am))
-    return disagreements, dict(machines=len(cases), runs=runs_total, skipped_large=skipped_large), results
+    return disagreements, dict(machines=len(cases), runs=runs_total, skipped_large=skipped_large), results, cases
 
 
-def model_trace(am: AM, engine, cx, events, name="replay"):
+def model_trace(am: AM, engine, cx, events, name="replay", probe=False):
     """Ask Coq for the model's snapshots of one run (for replay / diagnosis)."""
     text = HEADER + "Definition m0 : machine := %s.\nEval vm_compute in (%s m0 %s %s).\n" % (
-        am.to_coq(), "sync_case" if engine == "sync" else "async_case", ctx_coq(cx), core.cl(ev_coq(e) for e in events))
+        am.to_coq(), ("sync_case " if engine == "sync" else "async_case ") + ("true" if probe else "false"), ctx_coq(cx), core.cl(ev_coq(e) for e in events))
     rc, out, _ = core.coq_eval(name, text)
     return out
